@@ -856,16 +856,143 @@ pub fn gen_programs(rng: &mut Rng, n: usize, sxr: bool, thorough: bool) -> Vec<P
             let mut counter = 0;
             gen::uniquify(&mut d.root, &mut counter);
         }
-        if let Some(p) = compile::make_program(h.docs, &format!("{:?}", h.theme), &opt) {
+        if let Some(mut p) = compile::make_program(h.docs, &format!("{:?}", h.theme), &opt) {
+            let k = 1 + r.below(3);
+            for _ in 0..k {
+                let base = p.docs[r.below(p.docs.len())].clone();
+                p.extra_docs.push(foreign_doc(&mut r, base));
+            }
             out.push(p);
         }
     }
     out
 }
 
+/// a variation of a source document, for the correspondence of the deserializer model only: dropped / added /
+/// repeated / reordered attributes and children, padded text, CDATA, comments inside text
+pub fn foreign_doc(rng: &mut Rng, mut d: Doc) -> Doc {
+    fn nth_mut<'a>(n: &'a mut Node, idx: &mut usize) -> Option<&'a mut Node> {
+        if *idx == 0 {
+            return Some(n);
+        }
+        *idx -= 1;
+        for it in n.items.iter_mut() {
+            if let Item::Elem(c) = it {
+                if let Some(r) = nth_mut(c, idx) {
+                    return Some(r);
+                }
+            }
+        }
+        None
+    }
+    let edits = 1 + rng.below(3);
+    for _ in 0..edits {
+        let mut idx = rng.below(d.root.size());
+        let n: &mut Node = match nth_mut(&mut d.root, &mut idx) {
+            Some(n) => n,
+            None => continue,
+        };
+        let kids: Vec<usize> = n.items.iter().enumerate().filter(|(_, i)| matches!(i, Item::Elem(_))).map(|(i, _)| i).collect();
+        let texts: Vec<usize> = n.items.iter().enumerate().filter(|(_, i)| matches!(i, Item::Text(_) | Item::CData(_))).map(|(i, _)| i).collect();
+        match rng.below(11) {
+            0 if !n.attrs.is_empty() => {
+                let i = rng.below(n.attrs.len());
+                n.attrs.remove(i);
+            }
+            1 => {
+                if !n.attrs.iter().any(|a| a.0 == "zzextra") {
+                    n.attrs.push(("zzextra".into(), "x".into()));
+                }
+            }
+            2 if !n.attrs.is_empty() => {
+                let i = rng.below(n.attrs.len());
+                n.attrs[i].1 = rng.pick(&["", " padded ", "v"]).to_string();
+            }
+            3 if !kids.is_empty() => {
+                let i = kids[rng.below(kids.len())];
+                n.items.remove(i);
+            }
+            4 if !kids.is_empty() => {
+                let i = kids[rng.below(kids.len())];
+                let c = n.items[i].clone();
+                let at = if rng.chance(1, 2) { i + 1 } else { n.items.len() };
+                n.items.insert(at, c);
+            }
+            5 if kids.len() >= 2 => {
+                let i = kids[rng.below(kids.len())];
+                let j = kids[rng.below(kids.len())];
+                n.items.swap(i, j);
+            }
+            6 if texts.is_empty() => {
+                let mut c = Node::new("zzunknown");
+                if rng.chance(1, 2) {
+                    c.items.push(Item::Text("u".into()));
+                }
+                n.items.push(Item::Elem(c));
+            }
+            7 if !texts.is_empty() => {
+                let i = texts[rng.below(texts.len())];
+                let t = match &n.items[i] {
+                    Item::Text(t) | Item::CData(t) => t.clone(),
+                    _ => String::new(),
+                };
+                let core = t.trim().to_string();
+                let repl: Vec<Item> = match rng.below(7) {
+                    0 => vec![Item::Text(format!("  {}\n ", core))],
+                    1 => vec![Item::CData(format!(" {} ", core.replace("]]>", "")))],
+                    2 => vec![Item::Text(format!(" {}", core)), Item::CData(" mid ".into()), Item::Text("end ".into())],
+                    3 => vec![Item::Ws("  ".into()), Item::CData("".into())],
+                    4 => vec![Item::Text(format!("{} ", core)), Item::Comment("c".into()), Item::Text(" tail ".into())],
+                    5 => vec![Item::Ws(" ".into()), Item::Comment("c".into()), Item::Ws("\n".into()), Item::CData(core.replace("]]>", "")), Item::Ws("  ".into())],
+                    _ => vec![Item::Ws("   ".into())],
+                };
+                n.items.splice(i..i + 1, repl);
+            }
+            8 if kids.is_empty() && texts.is_empty() => {
+                n.items.push(Item::Text(" added text ".into()));
+                n.self_closing = false;
+            }
+            9 if !kids.is_empty() => {
+                // text next to child elements: mixed content (outside the deserializer model, skipped there)
+                n.items.insert(0, Item::Text("mixed".into()));
+            }
+            _ => {
+                if let Some(i) = kids.first() {
+                    if let Item::Elem(c) = &mut n.items[*i] {
+                        c.items.clear();
+                        c.self_closing = rng.chance(1, 2);
+                    }
+                }
+            }
+        }
+    }
+    d
+}
+
 /// K1: serde-xml-rs 0.6.0 binds text to `$value`; the preset emits `$text`, so the text of a struct-typed element is dropped
 fn is_k1(sxr: bool, r: &compile::DocResult) -> bool {
     sxr && k1_listed() && r.ok && !r.missing.is_empty() && r.missing.iter().all(|m| m.struct_typed_text)
+}
+
+/// K2: quick-xml maps an `Option` field to `None` when the element (or its parent) carries xsi:nil="true"; the
+/// attributes and content of that element are then not in the value
+fn is_k2(sxr: bool, p: &Program, j: usize, r: &compile::DocResult) -> bool {
+    !sxr && k2_listed()
+        && r.ok
+        && !r.missing.is_empty()
+        && r.missing.iter().all(|m| m.under_nil)
+        && p.docs.get(j).map_or(false, |d| d.to_xml().contains("http://www.w3.org/2001/XMLSchema-instance"))
+}
+
+fn k2_listed() -> bool {
+    static LISTED: std::sync::OnceLock<bool> = std::sync::OnceLock::new();
+    *LISTED.get_or_init(|| {
+        std::fs::read_to_string("/verif/known_findings.json")
+            .ok()
+            .and_then(|s| serde_json::from_str::<Value>(&s).ok())
+            .and_then(|v| v.as_array().cloned())
+            .map_or(false, |a| a.iter().any(|k| k["property"] == "C02" && k["status"] == "known" && k["signature"] == "quick-xml-xsi-nil-optional-element-dropped"))
+    })
 }
 
 /// a known finding only suppresses what /verif/known_findings.json lists (committed; never written at run time)
@@ -891,6 +1018,7 @@ pub fn eval_programs(sum: &mut Summary, programs: &[Program], sxr: bool, nbins: 
     };
     let mut lines = Vec::new();
     let mut k1_hits = 0u64;
+    let mut k2_hits = 0u64;
     for (i, (p, r)) in programs.iter().zip(results.iter()).enumerate() {
         let mut per_doc = Vec::new();
         for j in 0..p.docs.len() {
@@ -902,13 +1030,24 @@ pub fn eval_programs(sum: &mut Summary, programs: &[Program], sxr: bool, nbins: 
                 cap = true;
                 k1_hits += 1;
             }
+            if !cap && is_k2(sxr, p, j, &plain) && is_k2(sxr, p, j, &deny) {
+                cap = true;
+                k2_hits += 1;
+            }
             per_doc.push((ok, cap));
         }
         lines.push(compile::d_line(&format!("c{}", i), &prop, p, r.compiled, &per_doc));
+        if r.compiled {
+            lines.push(compile::e_line(&format!("e{}", i), &prop, p, r, sxr));
+        }
     }
     if k1_hits > 0 {
         let e = sum.extra.entry("known_hits_K1".to_string()).or_insert(json!(0));
         *e = json!(e.as_u64().unwrap_or(0) + k1_hits);
+    }
+    if k2_hits > 0 {
+        let e = sum.extra.entry("known_hits_K2".to_string()).or_insert(json!(0));
+        *e = json!(e.as_u64().unwrap_or(0) + k2_hits);
     }
     let verdicts = match driver::run(&lines) {
         Ok(v) => v,
@@ -917,6 +1056,32 @@ pub fn eval_programs(sum: &mut Summary, programs: &[Program], sxr: bool, nbins: 
             return;
         }
     };
+    // the deserializer model against the compiled programs
+    for (i, (p, r)) in programs.iter().zip(results.iter()).enumerate() {
+        if !r.compiled {
+            continue;
+        }
+        let v = verdicts.get(&format!("e{}", i)).cloned().unwrap_or(Verdict::Bad("no verdict".into()));
+        let ndocs = (p.docs.len() + p.extra_docs.len()) as u64;
+        let info: Vec<u64> = match verdicts.get(&format!("e{}.info", i)) {
+            Some(Verdict::Gen(t)) => t.split(' ').filter_map(|x| x.parse().ok()).collect(),
+            _ => vec![],
+        };
+        for (k, val) in [
+            ("deser_model_programs", 1u64),
+            ("deser_model_documents", ndocs),
+            ("deser_model_documents_rejected_by_the_program", r.docs.iter().filter(|d| !d.ok).count() as u64),
+            ("deser_model_compared_runs", info.first().copied().unwrap_or(0)),
+            ("deser_model_documents_outside_the_model", info.get(1).copied().unwrap_or(0)),
+            ("deser_model_runs_rejected_by_the_model", info.get(2).copied().unwrap_or(0)),
+        ] {
+            let e = sum.extra.entry(k.to_string()).or_insert(json!(0));
+            *e = json!(e.as_u64().unwrap_or(0) + val);
+        }
+        if v.is_failure() && !sum.prop_only && sum.failures.iter().filter(|f| f.kind == v.kind()).count() < 3 {
+            sum.failures.push(Failure { kind: v.kind().to_string(), what: format!("deserializer model: {}", v.text()), case: compile::program_json(p, r) });
+        }
+    }
     for (i, (p, r)) in programs.iter().zip(results.iter()).enumerate() {
         let v = verdicts.get(&format!("c{}", i)).cloned().unwrap_or(Verdict::Bad("no verdict".into()));
         sum.evaluations += 1;
@@ -958,7 +1123,8 @@ pub fn check_compile(sum: &mut Summary, sxr: bool) {
         if v["kind"] == "program" {
             let docs: Option<Vec<Doc>> = v["documents"].as_array().map(|a| a.iter().filter_map(|d| crate::xmlread::read_doc(d.as_str().unwrap_or("").as_bytes())).collect());
             if let Some(docs) = docs {
-                if let Some(p) = compile::make_program(docs, "corpus", &if sxr { OptRec::sxr() } else { OptRec::quick() }) {
+                if let Some(mut p) = compile::make_program(docs, "corpus", &if sxr { OptRec::sxr() } else { OptRec::quick() }) {
+                    p.extra_docs = v["extra_documents"].as_array().map(|a| a.iter().filter_map(|d| crate::xmlread::read_doc(d.as_str().unwrap_or("").as_bytes())).collect()).unwrap_or_default();
                     corpus.push(p);
                 }
             }
@@ -982,10 +1148,15 @@ pub fn check_compile(sum: &mut Summary, sxr: bool) {
         eval_programs(sum, &programs, sxr, threads(), &format!("{}", done));
         done += n;
     }
-    if let Some(k) = sum.extra.get("known_hits_K1").and_then(|v| v.as_u64()) {
-        if k > 0 {
-            sum.extra.insert("known_hits".into(), json!(["sxr-text-of-struct-typed-element-dropped"]));
-        }
+    let mut hits = Vec::new();
+    if sum.extra.get("known_hits_K1").and_then(|v| v.as_u64()).unwrap_or(0) > 0 {
+        hits.push("sxr-text-of-struct-typed-element-dropped");
+    }
+    if sum.extra.get("known_hits_K2").and_then(|v| v.as_u64()).unwrap_or(0) > 0 {
+        hits.push("quick-xml-xsi-nil-optional-element-dropped");
+    }
+    if !hits.is_empty() {
+        sum.extra.insert("known_hits".into(), json!(hits));
     }
 }
 
@@ -1274,7 +1445,8 @@ pub fn replay(prop: &str, cv: &Value) -> i32 {
             let sxr = prop == "C13";
             let docs: Vec<Doc> = cv["documents"].as_array().map(|a| a.iter().filter_map(|d| crate::xmlread::read_doc(d.as_str().unwrap_or("").as_bytes())).collect()).unwrap_or_default();
             match compile::make_program(docs, "replay", &if sxr { OptRec::sxr() } else { OptRec::quick() }) {
-                Some(p) => {
+                Some(mut p) => {
+                    p.extra_docs = cv["extra_documents"].as_array().map(|a| a.iter().filter_map(|d| crate::xmlread::read_doc(d.as_str().unwrap_or("").as_bytes())).collect()).unwrap_or_default();
                     let mut sum = Summary::new(prop, "quick", 0, "replay");
                     eval_programs(&mut sum, &[p], sxr, 1, "replay");
                     for f in &sum.failures {
